@@ -12,6 +12,64 @@ BASIC_LINK_RE4 = re.compile(r"{@link +(\w+)\.(\w+)}")
 PARTS_RE = re.compile(r"(([a-z0-9])([A-Z]))")
 DEFAULT_INDENT = "    "
 
+# Strict and reserved keywords (Rust 2021 edition) that can not be used as a
+# field name. Field names are produced by `to_snake_case`, hence lower case only.
+# https://doc.rust-lang.org/reference/keywords.html
+RUST_KEYWORDS = [
+    # strict keywords
+    "as",
+    "async",
+    "await",
+    "break",
+    "const",
+    "continue",
+    "crate",
+    "dyn",
+    "else",
+    "enum",
+    "extern",
+    "false",
+    "fn",
+    "for",
+    "if",
+    "impl",
+    "in",
+    "let",
+    "loop",
+    "match",
+    "mod",
+    "move",
+    "mut",
+    "pub",
+    "ref",
+    "return",
+    "self",
+    "static",
+    "struct",
+    "super",
+    "trait",
+    "true",
+    "type",
+    "unsafe",
+    "use",
+    "where",
+    "while",
+    # reserved keywords
+    "abstract",
+    "become",
+    "box",
+    "do",
+    "final",
+    "macro",
+    "override",
+    "priv",
+    "try",
+    "typeof",
+    "unsized",
+    "virtual",
+    "yield",
+]
+
 
 def lines_to_comments(lines: List[str]) -> List[str]:
     return ["// " + line for line in lines]
